@@ -144,6 +144,5 @@ func cmdVerify(args []string) {
 	}
 }
 
-func cmdCheck(args []string)    { fmt.Println("not implemented yet"); os.Exit(2) }
 func cmdReplay(args []string)   { fmt.Println("not implemented yet"); os.Exit(2) }
 func cmdSelftest(args []string) { fmt.Println("not implemented yet"); os.Exit(2) }
